@@ -72,6 +72,7 @@ from dask_expr._shuffle import RearrangeByColumn
 from dask_expr._util import (
     PANDAS_GE_300,
     _convert_to_list,
+    _tokenize_deterministic,
     get_specified_shuffle,
     is_scalar,
 )
@@ -362,6 +363,15 @@ class GroupbyAggregationBase(GroupByApplyConcatApply, GroupByBase):
         "shuffle_method": None,
         "_slice": None,
     }
+
+    @functools.cached_property
+    def _name(self):
+        name = super()._name
+        if isinstance(self.arg, dict):
+            # The token of a dict does not depend on the order of its items,
+            # but the order of the result columns does
+            name = self._funcname + "-" + _tokenize_deterministic(name, list(self.arg))
+        return name
 
     @functools.cached_property
     def spec(self):
